@@ -193,9 +193,10 @@ pub fn run(ctx: &Ctx) -> Report {
 
     // ---- large payloads (multi-packet commands) ----
     if !ctx.miri {
-        let mut big: Vec<usize> = vec![MAXP - 1, MAXP, MAXP + 1];
+        // 2*(2^24-1)+1 needs three fragments: the smallest case in which a middle fragment exists
+        let mut big: Vec<usize> = vec![MAXP - 1, MAXP, MAXP + 1, 2 * MAXP + 1];
         if ctx.thorough {
-            big.extend_from_slice(&[MAXP - 2, 2 * MAXP - 1, 2 * MAXP, 2 * MAXP + 1, 2 * MAXP + 5000, MAXP + 70_000]);
+            big.extend_from_slice(&[MAXP - 2, 2 * MAXP - 1, 2 * MAXP, 2 * MAXP + 5000, MAXP + 70_000, 3 * MAXP]);
         }
         let variants = if ctx.thorough { 3 } else { 1 };
         let cases: Vec<(usize, u64)> = big.iter().flat_map(|&l| (0..variants).map(move |v| (l, v))).collect();
